@@ -3,6 +3,7 @@ import FractopoModel.Basic.Clip
 import FractopoModel.Generated.UnderlapValidator
 import FractopoModel.Generated.AreaValidator
 import FractopoModel.Generated.ValidationUtils
+import FractopoModel.Generated.ValidatorMethods
 /-!
 # Runs the REGENERATED `UnderlappingSnapValidator.validation_method` and `TargetAreaSnapValidator.validation_method`
 (translator validation, stream S10-generated).  Distances are exact and squared (thresholds and multipliers are passed squared);
@@ -64,6 +65,22 @@ def gtri (a : Args) : Option String := do
     (fun (x : Polyline) => (segLens2 x).sum) () () (t * t) (k * k)
   some s!"r={showBool r}"
 
+/-- `gstackval t= m= o= geom=<line> cands=<lines> along=<0|1> tri=<0|1 per candidate>`: the regenerated
+`StackedTracesValidator.validation_method`; the neighbour set is exact (distance of the candidate to the trace ≤ t·o·m), the alongside
+test is scripted as one flag that applies when the neighbour set is not empty, the triangle test per candidate -/
+def gstackval (a : Args) : Option String := do
+  let t ← (a.get? "t") >>= parseRat?
+  let m ← (a.get? "m") >>= parseRat?
+  let o ← (a.get? "o") >>= parseRat?
+  let geom ← (a.get? "geom") >>= parseLine?
+  let cands ← if ((a.get? "cands").getD "").isEmpty then some [] else (a.get? "cands") >>= parseLines?
+  let along ← (a.get? "along") >>= parseBool?
+  let tri ← if ((a.get? "tri").getD "").isEmpty then some [] else (((a.get? "tri").getD "").splitOn ",").mapM parseBool?
+  let r := Gen.stacked_validation (fun (_ : Polyline) => true)
+    (fun tc r g => decide ((lineLineDist2 tc g).getD 0 ≤ r * r))
+    (fun _ near => along && !near.isEmpty) (fun _ c => tri.getD (cands.idxOf c) false) geom cands t m o
+  some s!"ok={showBool r}"
+
 def dispatch (line : String) : String :=
   let toks := (line.trimAscii.toString.splitOn " ").filter (· ≠ "")
   match toks with
@@ -76,6 +93,7 @@ def dispatch (line : String) : String :=
       | "areaval" => areavalCmd a
       | "gisul" => gisul a
       | "gtri" => gtri a
+      | "gstackval" => gstackval a
       | _ => some s!"error=unknown-command:{cmd}"
     r.getD "error=bad-arguments"
 
